@@ -287,6 +287,9 @@ func runC04(r *Run) {
 	lt := r.Rule("C04.longterm", "NewLongTermIntegrity = MD5(username \":\" realm \":\" password)", 1)
 	checkLongTerm(r, lt)
 	lt.Done()
+	wr := r.Rule("C04.wire", "Decode and everything it calls never write a byte of the message (Raw and views of it): the HMAC is computed over the bytes as received", 1)
+	checkDecodeReadOnly(r, wr)
+	wr.Done()
 	_ = attrsF
 }
 
@@ -907,4 +910,33 @@ func runC05(r *Run) {
 		r.Res.Extra = map[string]interface{}{"nilconds": checkHelperConds(r, ck)}
 	}
 	ck.Done()
+	wr := r.Rule("C05.wire", "Decode and everything it calls never write a byte of the message (Raw and views of it): the CRC is computed over the bytes as received", 1)
+	checkDecodeReadOnly(r, wr)
+	wr.Done()
+}
+
+// checkDecodeReadOnly: no byte write into message-derived storage in the closure of (*Message).Decode.
+func checkDecodeReadOnly(r *Run, rc *RuleCtx) {
+	p := r.P
+	cl := p.buildClosures()
+	if cl.DecodeM == nil {
+		rc.Fail("(*Message).Decode", "anchor not found")
+		return
+	}
+	fns := p.CG().Closure([]*ssa.Function{cl.DecodeM}, func(f *ssa.Function) bool { return p.isLibFn(f) })
+	for _, fn := range fns {
+		r.Analysed(fn)
+		n := 0
+		eachInstr(fn, func(b *ssa.BasicBlock, i int, in ssa.Instruction) {
+			dst := byteWriteDst(in)
+			if dst == nil {
+				return
+			}
+			n++
+			if messageDerived(dst, 0) {
+				rc.Violation(fn, instrPos(in), "write into "+exprCanon(dst), "decoding rewrites bytes of the received message: MESSAGE-INTEGRITY and FINGERPRINT are then checked over bytes that differ from the wire (a valid message fails its check after decoding, e.g. with the legacy 0x8020 type)")
+			}
+		})
+		rc.Instance(fnName(fn), fn == cl.DecodeM, map[string]interface{}{"fn": fnName(fn), "byte_writes": n})
+	}
 }
